@@ -283,6 +283,17 @@ class WCS(object):
         ra,dec = wcs.image2sky(x,y)
         """
 
+        u, v = self._image2world(x, y, distort=distort)
+
+        longitude, latitude = self.image2sph(u, v)
+
+        return longitude, latitude
+
+    def _image2world(self, x, y, distort=True):
+        """
+        image x,y to intermediate world coordinates: the part of image2sky
+        before the deprojection onto the sphere
+        """
         xdiff = x - self.crpix[0]
         ydiff = y - self.crpix[1]
 
@@ -302,9 +313,7 @@ class WCS(object):
         else:
             raise ValueError("projection '%s' not supported" % p)
 
-        longitude, latitude = self.image2sph(u, v)
-
-        return longitude, latitude
+        return u, v
 
     def sky2image(
         self, longitude, latitude, distort=True, find=True, xtol=DEFTOL,
@@ -542,14 +551,13 @@ class WCS(object):
         return lon_new, lat_new
 
     def _lonlatdiff(self, xy):
-        x = xy[0]
-        y = xy[1]
-        lon, lat = self.image2sky(x, y)
-        lonlat = np.zeros(2)
-        lonlat[0] = lon
-        lonlat[1] = lat
-        diff = lonlat - self.lonlat_answer
-        diff[0] = wrap_ra_diff(diff[0])
+        # the residual is taken in the intermediate world coordinates (the
+        # tangent plane), where lonlat_answer holds the projected target: a
+        # residual in (lon, lat) is singular at the poles
+        u, v = self._image2world(xy[0], xy[1])
+        diff = np.zeros(2)
+        diff[0] = u - self.lonlat_answer[0]
+        diff[1] = v - self.lonlat_answer[1]
         return diff
 
     def _fsolve_xy(self, xyguess, xtol=DEFTOL):
@@ -600,8 +608,7 @@ class WCS(object):
         Uses scipy.optimize.fsolve to find the roots of the transformation
         """
 
-        self.lonlat_answer[0] = lon
-        self.lonlat_answer[1] = lat
+        self.lonlat_answer[0], self.lonlat_answer[1] = self.sph2image(lon, lat)
 
         xyguess = self.xyguess
 
